@@ -422,6 +422,22 @@ func c06Program(p *prog, steps int) {
 				p.checkHeap()
 			}
 		case op < 38: // Unset (missing keys are a no-op)
+			if r.Chance(1, 12) {
+				// no key at all - no argument, a nil slice, an empty slice - and likewise a Set without pairs: nothing changes
+				p.step("Unset", fmt.Sprintf("%s.Unset() / Set() without arguments", o.Name()), false, func() {
+					switch r.Intn(4) {
+					case 0:
+						real.Unset()
+					case 1:
+						real.Unset([]string(nil)...)
+					case 2:
+						real.Unset([]string{}...)
+					default:
+						real.Set()
+					}
+				})
+				continue
+			}
 			k := r.Range(1, 3)
 			keys := make([]string, k)
 			for i := range keys {
@@ -469,7 +485,12 @@ func c06Program(p *prog, steps int) {
 			}
 			res := h.NewObj(nil)
 			p.step("Pluck", fmt.Sprintf("%s = %s.Pluck(%q)", res.Name(), o.Name(), keys), missing, func() {
-				ret := real.Pluck(keys...)
+				var ret at.Object
+				if len(keys) == 0 && r.Bool() {
+					ret = real.Pluck() // no argument at all (a nil variadic) is no key, like an empty slice
+				} else {
+					ret = real.Pluck(keys...)
+				}
 				p.adoptResult(res, ret, expect, "Pluck")
 			})
 		case op < 60:
